@@ -4,3 +4,7 @@ import checks_adv
 CHECKS = {}
 for _p in ("C06", "C07", "C08", "C09"):
     CHECKS[_p] = checks_adv.make(_p)
+
+import checks_dial
+CHECKS["C11"] = checks_dial.c11
+CHECKS["C10"] = checks_dial.c10
